@@ -98,10 +98,49 @@ fn narrow<T: Fl>(a: [f64; 4]) -> [T; 4] {
     [T::narrow(a[0]), T::narrow(a[1]), T::narrow(a[2]), T::narrow(a[3])]
 }
 
+/// "Clone this sampler if its type happens to be `Clone`" — decided at compile time where the type is concrete
+/// (autoref dispatch: the `Clone`-bounded impl is found one auto-reference earlier than the fallback). On the current
+/// tree palette's samplers are not `Clone`, so `Uniform<Color>` is not either and this answers `None`; a palette
+/// that makes them cloneable gets every other sample drawn from the clone.
+pub struct CloneProbe<'a, U>(pub &'a U);
+pub trait ViaClone<U> {
+    fn palsim_try_clone(&self) -> Option<U>;
+}
+impl<'a, U: Clone> ViaClone<U> for CloneProbe<'a, U> {
+    fn palsim_try_clone(&self) -> Option<U> {
+        Some(self.0.clone())
+    }
+}
+pub trait ViaNothing<U> {
+    fn palsim_try_clone(&self) -> Option<U>;
+}
+impl<'a, 'b, U> ViaNothing<U> for &'b CloneProbe<'a, U> {
+    fn palsim_try_clone(&self) -> Option<U> {
+        None
+    }
+}
+/// Expands, for a concrete color type, to a `fn(&Uniform<C>) -> Option<Uniform<C>>`.
+macro_rules! try_clone_fn {
+    ($c:ty) => {{
+        fn f(u: &Uniform<$c>) -> Option<Uniform<$c>> {
+            #[allow(unused_imports)]
+            use $crate::cases::{ViaClone, ViaNothing};
+            (&$crate::cases::CloneProbe(u)).palsim_try_clone()
+        }
+        f as fn(&Uniform<$c>) -> Option<Uniform<$c>>
+    }};
+}
+
+thread_local! {
+    /// how many samples of the running plan were drawn from a cloned sampler
+    pub static FROM_CLONE: std::cell::Cell<u64> = const { std::cell::Cell::new(0) };
+}
+
 pub fn run_generic<C, T>(
     mk: fn([T; 4]) -> C,
     get: fn(&C) -> [T; 4],
     within: fn(&C) -> Option<bool>,
+    try_clone: fn(&Uniform<C>) -> Option<Uniform<C>>,
     req: &Request,
     rng: &mut SimRng,
     sink: &mut dyn FnMut(Sample),
@@ -126,9 +165,16 @@ where
         DistKind::Uniform { inclusive } => {
             let (lo, hi) = (mk(lo_t), mk(hi_t));
             let u = if inclusive { Uniform::new_inclusive(lo, hi) } else { Uniform::new(lo, hi) };
-            for _ in 0..req.n {
+            let copy = try_clone(&u);
+            for i in 0..req.n {
                 rng.mark();
-                let c = u.sample(rng);
+                let c = match &copy {
+                    Some(v) if i % 2 == 1 => {
+                        FROM_CLONE.with(|n| n.set(n.get() + 1));
+                        v.sample(rng)
+                    }
+                    _ => u.sample(rng),
+                };
                 emit(&c);
             }
         }
@@ -155,6 +201,7 @@ pub fn run_mixed<C>(
     get: fn(&C) -> [f64; 4],
     round: fn([f64; 4]) -> [f64; 4],
     within: fn(&C) -> Option<bool>,
+    try_clone: fn(&Uniform<C>) -> Option<Uniform<C>>,
     req: &Request,
     rng: &mut SimRng,
     sink: &mut dyn FnMut(Sample),
@@ -176,9 +223,16 @@ where
         DistKind::Uniform { inclusive } => {
             let (lo, hi) = (mk(req.lo), mk(req.hi));
             let u = if inclusive { Uniform::new_inclusive(lo, hi) } else { Uniform::new(lo, hi) };
-            for _ in 0..req.n {
+            let copy = try_clone(&u);
+            for i in 0..req.n {
                 rng.mark();
-                let c = u.sample(rng);
+                let c = match &copy {
+                    Some(v) if i % 2 == 1 => {
+                        FROM_CLONE.with(|n| n.set(n.get() + 1));
+                        v.sample(rng)
+                    }
+                    _ => u.sample(rng),
+                };
                 emit(&c);
             }
         }
@@ -247,13 +301,13 @@ macro_rules! case_body {
             Some(c.color.is_within_bounds())
         }
         fn run_m(req: &Request, rng: &mut SimRng, sink: &mut dyn FnMut(Sample)) -> Ends {
-            run_mixed::<Alpha<Col, O>>(mk_m, get_m, round_m, within_m, req, rng, sink)
+            run_mixed::<Alpha<Col, O>>(mk_m, get_m, round_m, within_m, try_clone_fn!(Alpha<Col, O>), req, rng, sink)
         }
         fn run(req: &Request, rng: &mut SimRng, sink: &mut dyn FnMut(Sample)) -> Ends {
-            run_generic::<Col, T>(mk, get, within, req, rng, sink)
+            run_generic::<Col, T>(mk, get, within, try_clone_fn!(Col), req, rng, sink)
         }
         fn run_a(req: &Request, rng: &mut SimRng, sink: &mut dyn FnMut(Sample)) -> Ends {
-            run_generic::<Alpha<Col, T>, T>(mk_a, get_a, within_a, req, rng, sink)
+            run_generic::<Alpha<Col, T>, T>(mk_a, get_a, within_a, try_clone_fn!(Alpha<Col, T>), req, rng, sink)
         }
         const fn pad_k(k: &[Kind], alpha: bool) -> [Kind; 4] {
             let mut out = [Kind::Lin; 4];
@@ -356,10 +410,10 @@ macro_rules! hue_case {
         pub mod $m {
             use super::*;
             fn run32(req: &Request, rng: &mut SimRng, sink: &mut dyn FnMut(Sample)) -> Ends {
-                run_generic::<$h<f32>, f32>(|a| $h::new(a[0]), |h| [h.into_raw_degrees(), 0.0, 0.0, 0.0], |_| None, req, rng, sink)
+                run_generic::<$h<f32>, f32>(|a| $h::new(a[0]), |h| [h.into_raw_degrees(), 0.0, 0.0, 0.0], |_| None, try_clone_fn!($h<f32>), req, rng, sink)
             }
             fn run64(req: &Request, rng: &mut SimRng, sink: &mut dyn FnMut(Sample)) -> Ends {
-                run_generic::<$h<f64>, f64>(|a| $h::new(a[0]), |h| [h.into_raw_degrees(), 0.0, 0.0, 0.0], |_| None, req, rng, sink)
+                run_generic::<$h<f64>, f64>(|a| $h::new(a[0]), |h| [h.into_raw_degrees(), 0.0, 0.0, 0.0], |_| None, try_clone_fn!($h<f64>), req, rng, sink)
             }
             pub static DESCS: [CaseDesc; 2] = [
                 CaseDesc {
